@@ -263,7 +263,7 @@ theorem selectPadded_getD (seq : List Rat) (n r : Nat) (h : r < n) : (selectPadd
         List.getD_eq_getElem?_getD]
     · rw [List.getD_eq_getElem?_getD, List.getElem?_take_of_lt h, List.getD_eq_getElem?_getD]
   · have h2 : seq.length ≤ r := by omega
-    rw [List.getD_eq_getElem?_getD seq, List.getElem?_eq_none h2]
+    rw [List.getD_eq_getElem?_getD (l := seq), List.getElem?_eq_none h2]
     split
     · rw [List.getD_eq_getElem?_getD, List.getElem?_append_right (by simp; omega)]
       simp only [List.length_take, Option.getD_none]
@@ -312,63 +312,54 @@ theorem Scorer.scores_ok (sc : Scorer) (nCand n : Nat)
 theorem getD_map_range (f : Nat → Rat) (n r : Nat) (h : r < n) : ((List.range n).map f).getD r 0 = f r := by
   rw [List.getD_eq_getElem?_getD, List.getElem?_map, List.getElem?_range h]; rfl
 
-/-- Borda: rank `r` (0 = best) of a ballot scores `n_candidates + base - 1 - r` -/
-theorem borda_score_at (base : Int) (nCand n r : Nat) (hn : n ≤ nCand) (hr : r < n) :
-    (scorerList (.borda base) nCand n).getD r 0 = (((nCand : Int) + base - 1 - (r : Int) : Int) : Rat) := by
-  unfold scorerList
-  simp only [Scorer.scores]
-  rw [if_neg (by omega)]
-  simp only [selectPadded_getD _ _ _ hr, Gen.RankScore.borda_scores]
-  rw [getD_map_range _ _ _ (by omega)]
-  push_cast; ring
+/-- decidable form of "the scorer accepts `n` ranks" -/
+def scorerAccepts (sc : Scorer) (nCand n : Nat) : Bool :=
+  match sc with
+  | .borda _ => decide (n ≤ nCand)
+  | .geometric 0 => decide (n < 2)
+  | _ => true
 
-theorem borda_rejects (base : Int) (nCand n : Nat) (hn : nCand < n) :
-    (Scorer.borda base).scores nCand n = .error .valueError := by
-  simp only [Scorer.scores]; rw [if_pos hn]
+theorem scorerAccepts_iff (sc : Scorer) (nCand n : Nat) :
+    scorerAccepts sc nCand n = true ↔ ∃ l, sc.scores nCand n = .ok l := by
+  constructor
+  · intro h
+    apply Scorer.scores_ok
+    · rintro base rfl; simpa [scorerAccepts] using h
+    · rintro rfl; simpa [scorerAccepts] using h
+  · rintro ⟨l, hl⟩
+    cases sc with
+    | borda base =>
+      simp only [Scorer.scores] at hl
+      split at hl
+      · cases hl
+      · simp only [scorerAccepts, decide_eq_true_eq]; omega
+    | geometric base =>
+      cases base with
+      | zero =>
+        simp only [Scorer.scores] at hl
+        split at hl
+        · cases hl
+        · rename_i h; simp only [scorerAccepts, decide_eq_true_eq]; simp at h; omega
+      | succ b => rfl
+    | dowdall => rfl
+    | modifiedBorda => rfl
+    | fixedTop top => rfl
+    | sequence seq => rfl
 
-/-- Dowdall: `1 / (r + 1)` -/
-theorem dowdall_score_at (nCand n r : Nat) (hr : r < n) :
-    (scorerList .dowdall nCand n).getD r 0 = 1 / ((r : Rat) + 1) := by
-  unfold scorerList
-  simp only [Scorer.scores, Gen.RankScore.dowdall_scores]
-  rw [getD_map_range _ _ _ hr]
-  push_cast; ring
-
-/-- Geometric: `1 / base ^ r` -/
-theorem geometric_score_at (base nCand n r : Nat) (hb : base ≠ 0) (hr : r < n) :
-    (scorerList (.geometric base) nCand n).getD r 0 = 1 / ((base : Rat) ^ r) := by
-  unfold scorerList
-  simp only [Scorer.scores]
-  rw [if_neg (by simp [hb])]
-  simp only [Gen.RankScore.geometric_scores]
-  rw [getD_map_range _ _ _ hr]
-  push_cast; ring
-
-/-- Modified Borda: `n_ranked - r` -/
-theorem modifiedBorda_score_at (nCand n r : Nat) (hr : r < n) :
-    (scorerList .modifiedBorda nCand n).getD r 0 = (n : Rat) - (r : Rat) := by
-  unfold scorerList
-  simp only [Scorer.scores, Gen.RankScore.modified_borda_scores]
-  rw [getD_map_range _ _ _ hr]
-  push_cast; ring
-
-/-- FixedTop: `max(top - r, 0)` -/
-theorem fixedTop_score_at (top : Int) (nCand n r : Nat) (hr : r < n) :
-    (scorerList (.fixedTop top) nCand n).getD r 0 = max ((top : Rat) - (r : Rat)) 0 := by
-  unfold scorerList
-  simp only [Scorer.scores, Gen.RankScore.fixed_top_scores]
-  rw [getD_map_range _ _ _ hr]
-  unfold Py.pyMax
-  push_cast
-  split
-  · rename_i h; rw [max_eq_right (le_of_lt h)]
-  · rename_i h; rw [max_eq_left (not_lt.1 h)]
-
-/-- SequenceBased: the given sequence, then zeros -/
-theorem sequence_score_at (seq : List Rat) (nCand n r : Nat) (hr : r < n) :
-    (scorerList (.sequence seq) nCand n).getD r 0 = seq.getD r 0 := by
-  unfold scorerList
-  simp only [Scorer.scores]
-  exact selectPadded_getD _ _ _ hr
+/-- the rank-indexed form of the image: `Σ_j scores[r + j] · [k stands at place j]` -/
+theorem posFrom_eq_sum (scores : List Rat) (r : Nat) (b : Ballot) (k : Cand) :
+    posFrom scores r b k
+      = ((List.range b.length).map (fun j => scores.getD (r + j) 0 * cnt (b.getD j (.shared [])).cands k)).sum := by
+  induction b generalizing r with
+  | nil => simp [posFrom]
+  | cons it rest ih =>
+    rw [posFrom, ih, List.length_cons, List.range_succ_eq_map]
+    simp only [List.map_cons, List.sum_cons, List.map_map, Nat.add_zero, List.getD_cons_zero]
+    congr 2
+    apply List.map_congr_left
+    intro j _
+    simp only [Function.comp, Nat.succ_eq_add_one, List.getD_cons_succ]
+    congr 2
+    omega
 
 end VL.Convert
